@@ -7,3 +7,16 @@ package pubsub_controller
 //@ func (*Controller).handleMountedStream
 //@   noframe
 //@   ensures ret0 != nil ==> dir.HandleMountedStreamProtocolID() == c.protocolID
+
+// ---- C29: exactly one side of a link opens the pubsub stream ----
+// The stream is opened only by the side whose peer ID text does not sort after the remote one's;
+// for two distinct peers exactly one side satisfies that (lemma below: the texts differ because
+// base58 is injective, and the string order is total).
+//@ func (*trackedLink).trackLink
+//@   noframe
+//@   nosweep nil-deref
+//@   requires t.lnk != nil
+//@   assert at call invoke.OpenMountedStream: !(b58enc(old(t.lnk).GetRemotePeer()) < b58enc(old(t.lnk).GetLocalPeer()))
+//@   assert at call invoke.AddPeerStream: arg1 && arg0 == t.tpl
+//@   ensures b58enc(old(t.lnk).GetRemotePeer()) < b58enc(old(t.lnk).GetLocalPeer()) ==> ret == nil
+//@ lemma opener-unique: forall a bytes, b bytes :: a != b ==> ((b58enc(a) < b58enc(b)) <==> !(b58enc(b) < b58enc(a)))
